@@ -80,7 +80,12 @@ pub fn mask(bits: usize) -> W {
 fn gen_slot(ch: &mut Chooser, used: &[W], small_only: bool) -> W {
     for _ in 0..20 {
         let s = if small_only {
-            W::from_u64(ch.below(9_000) as u64)
+            // the whole documented pre-image table (slots 0..=9999), with its upper edge aimed at
+            match ch.below(8) {
+                0 => W::from_u64(9_999 - ch.below(3) as u64),
+                1..=3 => W::from_u64(ch.below(40) as u64),
+                _ => W::from_u64(ch.below(10_000) as u64),
+            }
         } else {
             match ch.below(10) {
                 0..=4 => W::from_u64(ch.below(40) as u64),
@@ -101,7 +106,7 @@ fn gen_slot(ch: &mut Chooser, used: &[W], small_only: bool) -> W {
     // fall back to a fresh small slot (below the 10000 pre-image table, so that a pre-folded array
     // base stays recognisable)
     let mut s = W::from_u64(9_100);
-    while used.contains(&s) {
+    while used.contains(&s) && s != W::from_u64(9_999) {
         s = s.add(W::ONE);
     }
     s
